@@ -75,6 +75,36 @@ def meta_of(o):
     return getattr(o._metadata, 'position_info', None)
 
 
+def parsed_worker(case):
+    """Trees that come from parse(): class instances carry positions, the Infix / Prefix / Postfix nodes of an operator
+    table carry none.  A replacement that is an already parsed node without a position of its own inherits the position
+    of the node it replaces; one that has a position keeps it; the input tree is never modified."""
+    import sourcer
+    g = sourcer.Grammar('start = E\nE = Atom between {\n    prefix: "-"\n    left: "+"\n}\nAtom = Group | Num\n'
+                        'class Group {\n    body: "(" >> E << ")"\n}\nclass Num {\n    d: /[0-9]/\n}\n')
+    out = {}
+    try:
+        t = g.parse('(1+2)+(3)+(-4)')
+        snap = [(id(n), type(n).__name__, repr(getattr(n._metadata, 'position_info', None))) for n in g.visit(t)]
+        groups = [n for n in g.visit(t) if type(n).__name__ == 'Group']
+        gpos = {id(n.body): n._metadata.position_info for n in groups}
+        had = {id(n.body): getattr(n.body._metadata, 'position_info', None) for n in groups}
+        r = g.transform(t, lambda n: n.body if type(n).__name__ == 'Group' else n)      # unwrap every group
+        unwrapped = [n for n in g.visit(r) if id(n) in gpos]
+        out['unwrapped'] = len(unwrapped)
+        out['inherits'] = [getattr(n._metadata, 'position_info', None) == (had[id(n)] if had[id(n)] else gpos[id(n)])
+                           for n in unwrapped]
+        out['kinds'] = sorted(type(n).__name__ for n in unwrapped)
+        out['input_unchanged'] = snap == [(id(n), type(n).__name__, repr(getattr(n._metadata, 'position_info', None)))
+                                          for n in g.visit(t)] or 'shared'
+    except BaseException as e:  # noqa
+        out['exc'] = [type(e).__name__, str(e)[:200]]
+    return {'id': case['id'], 'desc': None, 'build': ['ok'], 'obs': out}
+
+
+engine.register('parsed_worker', parsed_worker)
+
+
 def xform_worker(case):
     mod = objcheck.module()
     out = []
@@ -147,6 +177,16 @@ def run(chk):
     for i in range(0, len(trees), 25):
         part = trees[i:i + 25]
         cases.append({'id': i, 'trees': [x['t'] for x in part], 'cbs': [[y['cbs'] for y in x['xf']] for x in part]})
+    prec = engine.run_real([{'id': 0}], fn='parsed_worker', batch=1)[0]['obs']
+    chk.traces += 1
+    chk.count(['parsed tree, unwrap'], True)
+    if 'exc' in prec:
+        chk.violation('transform on a parsed tree raised %s' % (prec['exc'],), {'observed': prec})
+    else:
+        # Group(Infix) -> the Infix inherits the group's position; Group(Num) and Group(Prefix(Num)): Num keeps its own
+        if prec['unwrapped'] != 3 or prec['kinds'] != ['Infix', 'Num', 'Prefix'] or not all(prec['inherits']):
+            chk.violation('unwrapping the groups of a parsed tree: a replacement without a position of its own must inherit the '
+                          'position of the node it replaces, one with a position keeps it: %s' % (prec,), {'observed': prec})
     recs = engine.run_real(cases, fn='xform_worker', batch=1)
     for c in cases:
         rec = recs[c['id']]
